@@ -29,17 +29,25 @@ def gen(rng, tier):
         focus["nested"] = True
     if rng.random() < 0.4:
         focus["facilities"] = True
-    return C.maybe_history(rng, C.forward_spec(rng, tier, focus), 0.3)
+    return C.gen_edit(rng, C.maybe_history(rng, C.forward_spec(rng, tier, focus), 0.3))
 
 
 def extra_candidates(spec):
-    return C.history_candidates(spec)
+    for c in C.history_candidates(spec):
+        yield c
+    for c in C.edit_candidates(spec):
+        yield c
 
 
 def check_trace(res, tr):
     st = Static(tr.model)
     rec = tr.rec
     prev = {}
+    hist = getattr(tr, "history", None)
+    if hist is not None and not hist["state"] and getattr(tr, "first_snap", None) is not None:
+        # a continuation (state kept): the component states the first call left are the previous states
+        for cid in st.comp_order:
+            prev[cid] = tr.first_snap["C"][cid][0]
     changes = {cid: 0 for cid in st.comp_order}
     for cid in st.comp_order:
         ts = st.comp_tasks[cid]
@@ -90,8 +98,39 @@ def check_trace(res, tr):
     return any(changes[c] >= 2 and len(st.comp_tasks[c]) >= 2 for c in st.comp_order)
 
 
+def check_edited_logs(res, tr, marks):
+    """After absence steps were inserted into the finished logs the relation must still hold entry by entry."""
+    st = Static(tr.model)
+    for c in tr.ix.comps:
+        clog = [int(x) for x in c.state_record_list]
+        for i in range(len(clog)):
+            if i < len(marks) and all(marks[: i + 1]):
+                continue  # a step inserted before the first step shows the library's "before the start" convention (NONE)
+            tl = [int(tr.ix.task[t].state_record_list[i]) for t in st.comp_tasks[c.ID] if i < len(tr.ix.task[t].state_record_list)]
+            if len(tl) != len(st.comp_tasks[c.ID]):
+                continue
+            allfin = all(x == FINISHED for x in tl)
+            if allfin != (clog[i] == FINISHED):
+                res.add("edit", "C14.after_insert_absence.finished_iff_all_tasks_finished",
+                        "after insert_absence_time_list(%s): at log index %d (%s) component %s is logged %s, its tasks %s"
+                        % (tr.edit, i, "inserted step" if i < len(marks) and marks[i] else "original step", c.ID,
+                           SNAME.get(clog[i], clog[i]), [SNAME.get(x, x) for x in tl]), i)
+                return
+            if any(x in (READY, WORKING) for x in tl) and clog[i] == NONE:
+                res.add("edit", "C14.after_insert_absence.component_NONE_with_active_task",
+                        "after insert_absence_time_list(%s): at log index %d component %s is logged NONE, its tasks %s"
+                        % (tr.edit, i, c.ID, [SNAME.get(x, x) for x in tl]), i)
+                return
+
+
 def run(spec):
     tr = C.run_forward(spec)
     res = C.base_result(tr)
     res.nontrivial = bool(check_trace(res, tr))
+    if spec.get("edit") and tr.out.ok:
+        tr.edit = spec["edit"]
+        o, marks = C.apply_edit(tr, spec["edit"])
+        res.count("edit_runs")
+        if o.ok:
+            check_edited_logs(res, tr, marks)
     return C.finish(res, tr)
